@@ -80,8 +80,24 @@ def apply_contract(interp, c, func, args, kwargs):
     env = _clause_env(bound, ghosts, {'trace': st.trace, 'ghost': st.ghost})
     caller = interp.current_function_name()
     # the shape of a parameter is part of the precondition: integer ranges are proved at the call site
-    from .api import _Int
+    from .api import _Int, OneOf
     for pname, ty in c.params.items():
+        if isinstance(ty, OneOf) and pname in bound and all(isinstance(x, (str, int)) for x in ty.values):
+            # "one of these values" is part of the precondition as well
+            v = bound[pname]
+            if isinstance(v, SOpt):
+                v = interp.resolve(v)
+            if isinstance(v, SChoice) and all(any(a is x or a == x for x in ty.values) for a in v.alts):
+                continue
+            parts = [interp.eq(v, x) for x in ty.values]
+            if any(p is True for p in parts):
+                continue
+            ts = [to_z3(p) for p in parts if p is not False]
+            ok = wrap(z3.Or(*ts)) if ts else False
+            st.oblige('%s : requires[%s is one of the declared values] of %s' % (caller, pname, c.qname), ok,
+                      {'kind': 'callee-pre', 'callee': c.qname})
+            st.assume(ok)
+            continue
         if isinstance(ty, _Int) and (ty.lo is not None or ty.hi is not None) and pname in bound:
             v = bound[pname]
             if isinstance(v, (SOpt, SChoice)):
@@ -153,7 +169,18 @@ def apply_contract(interp, c, func, args, kwargs):
         elif isinstance(clause, tuple):       # (clause, 'effect') : executed for its effect on ghost state
             _call_pred(interp, clause[0], env2)
             continue
-        st.assume(interp.truth(_call_pred(interp, clause, env2, assumed=True)))
+        n_dec = len(st.decisions)
+        try:
+            st.assume(interp.truth(_call_pred(interp, clause, env2, assumed=True)))
+        except PathAbort:
+            if len(st.decisions) != n_dec:
+                raise        # one alternative of a case split made inside the clause (e.g. on the result) is ruled out
+            # The postcondition is plainly false of the state after the frame havoc: the contract cannot be
+            # used like this (e.g. a field havocked as an opaque value that the postcondition identifies with an
+            # existing object).  Letting the path die here would silently drop everything after the call.
+            raise Unsupported('call of %s through its contract in %s: ensures[%s] is false after the frame havoc '
+                              '(use inline=True or a frame that can produce the promised state)'
+                              % (c.qname, caller, name))
     return result
 
 
